@@ -449,7 +449,7 @@ def run(ctx):
     # --- T3 -------------------------------------------------------------------------------
     t3_ok, t3_data, t3_msg = t3(ctx)
     # --- ledger ---------------------------------------------------------------------------
-    n, maxlen = (700, 10) if ctx.tier == "quick" else (12000, 30)
+    n, maxlen = (700, 10) if ctx.tier == "quick" else (4000, 20)
     cases = corpus() + [gen_case(rnd, ctx, maxlen) for _ in range(n)]
     for c in cases[:1] + cases[-2:]:
         ctx.sample(c)
@@ -458,7 +458,7 @@ def run(ctx):
     have_gen = t3_data is not None and os.path.exists(os.path.join(ctx.scratch, "CTablesGen.vo"))
     ctrait_stream(ctx, t3_data, have_gen)
     # --- crash stream -----------------------------------------------------------------------
-    npr, nops = (24, 120) if ctx.tier == "quick" else (120, 250)
+    npr, nops = (24, 120) if ctx.tier == "quick" else (80, 200)
     programs = [dict(index=i, seed=rnd.randrange(1 << 30), n=nops) for i in range(npr)]
     crash_stream(ctx, programs)
     if ctx.tier == "thorough":
@@ -466,7 +466,7 @@ def run(ctx):
         ctx.build_impl(sanitize=True)
         crash_stream(ctx, programs, sanitize=True)
         ctrait_stream(ctx, t3_data, have_gen, sanitize=True)
-        ledger_stream(ctx, cases[:len(corpus())] + cases[-1500:], sanitize=True, tag="ledger_asan")
+        ledger_stream(ctx, cases[:len(corpus())] + cases[-600:], sanitize=True, tag="ledger_asan")
     if not t3_ok:
         if not any(not v[2] for v in ctx.violations):
             ctx.fail("T3/tables", t3_msg, dict(kind="generated-obligation-broken", detail=t3_msg,
